@@ -44,17 +44,18 @@ CHECKS = {
                   'AST scans for the renderers'),
     'C01': dict(
         category='proof',
-        text="count() of wigm (fixed and rational instances), wigm-prf(-batch), scotland, mpls, meek/warren (fixed-point and guarded "
+        text="count() of wigm (fixed and rational instances), wigm-prf(-batch), cfer(-batch), scotland, mpls, meek/warren (fixed-point and guarded "
              "instances, incl. the iteration loop: the total surplus strictly decreases, so each iteration ends) and qpq (exact rationals; "
              "lexicographic variant over candidates-not-excluded and hopefuls, across restarts) verified against a counter-level contract: the main loop's variant 2*nH+nP decreases (termination), enough candidates remain (W2) is an inductive "
              "invariant, on return nobody is hopeful or pending, the seats are filled and the withdrawn count is untouched; every "
-             "call of elect/defeat/unpend meets the writer's precondition. The other rules and the upper bound 'not more than the "
-             "seats' (needs the vote ledger) are covered by the bounded stand-in only.",
+             "call of elect/defeat/unpend meets the writer's precondition (CfER: every pending surplus of a round is transferred in one nested "
+             "loop; 'Elect pending' re-elects pending candidates). meek-prf and the upper bound 'not more than the seats' are covered by "
+             "the bounded stand-in only.",
         design_ref='DESIGN 6/C01, 11.6',
         note=COMMON_NOTE + "Assumed: the election model of candidates.py selectors (Candidates.select/hopeful/... as abstract "
              "lists with ghost cardinalities nH,nE,nD,nW,nP updated at every status write: card-update lemma), the C15 post-parse "
-             "invariant of rankings, trusted contracts of batchDefeat (wigm-prf) and findCertainLosers (mpls) (bounded stand-in). The select model is itself checked against the real body (8 POST obligations). "
-             "cfer, meek-prf count() bodies: bounded only (labelled). QPQ: ZeroDivisionError is declared possible (its absence rests on the "
+             "invariant of rankings, trusted contracts of batchDefeat (wigm-prf, cfer) and findCertainLosers (mpls) (bounded stand-in). The select model is itself checked against the real body (8 POST obligations). "
+             "meek-prf count() body: bounded only (labelled). QPQ: ZeroDivisionError is declared possible (its absence rests on the "
              "QPQ ledger invariant, bounded only). Meek/Warren: distributeVotes and batchDefeat are trusted contracts "
              "(frame + 'an elected candidate keeps a positive tally'), termination of iterate() under exact rational arithmetic is not decided, "
              "and arithmetic=integer is outside the rule's domain (its own assertion rejects it). nE <= seats: bounded only.",
@@ -62,21 +63,21 @@ CHECKS = {
                   'variants, call-site preconditions), z3; bounded run-time monitors as labelled stand-in'),
     'C02': dict(
         category='proof',
-        text="Conservation is proved through the whole count() of wigm (fixed-point and exact instances), wigm-prf and scotland with a "
+        text="Conservation is proved through the whole count() of wigm (fixed-point and exact instances), wigm-prf, wigm-prf-batch, cfer, cfer-batch and scotland with a "
              "ghost vote ledger maintained at every store to a tally, the non-transferable total, a ballot's weight or position: after "
              "the first tally the tallies add up to the ballots cast; at every recorded step (every logAction / newRound / elect / "
              "defeat / unpend call site) tallies + non-transferable total <= ballots cast (== under exact arithmetic); no tally and "
              "no non-transferable total is negative; loop invariants of every ballot sweep (what is credited is exactly the value "
              "leaving the excluded candidate's pile / at most value x surplus / tally for a surplus). Step contracts: transfer() of "
              "wigm, wigm-prf, cfer, scotland, Ballot.advance, Ballot.vote. Meek / Warren: distributeVotes() leaves tallies + residual "
-             "== ballots exactly (strict rankings). The composed rounding-loss lower bound, wigm-prf-batch, mpls, cfer, meek-prf, qpq and "
-             "equal rankings: bounded stand-in.",
+             "== ballots exactly (strict rankings). Batch exclusions (sure losers, 10059(k)) are covered through the sum of the piles over the "
+             "batch. The composed rounding-loss lower bound, mpls, meek-prf, qpq and equal rankings: bounded stand-in.",
         design_ref='DESIGN 6/C02, 11.L',
         note=COMMON_NOTE + "Model assumptions of the ledger (DESIGN 11.L): G[c] is the sum of the values of the ballots standing with c "
              "(closing fact of the partial sums; empty-sum and zero-sum lemmas), sum of multipliers == nBallots (C15 post-parse "
              "invariant), candidate ids distinct. The lower bound (value lost only through the prescribed rounding) is proved per "
-             "ballot (site obligation) and composed by the bounded monitor only. wigm-prf-batch sure-loser sweeps, mpls, cfer, "
-             "meek-prf, qpq, equal rankings: bounded monitor only (labelled bounded; never counted as proved). meek-prf's "
+             "ballot (site obligation) and composed by the bounded monitor only. Sum over a batch: uninterpreted sum with its update law; all-zero "
+             "and pointwise-equal lemmas used assert-then-assume. mpls, meek-prf, qpq, equal rankings: bounded monitor only (labelled bounded; never counted as proved). meek-prf's "
              "post-exclusion snapshots are outside the monitor (DESIGN 6.0 item 3).",
         technique='contract-based deductive verification of the real count() bodies with a ghost vote ledger (loop invariants of the '
                   'ballot sweeps, call-site obligations at every recorded step), transfer closures and Meek distribution under contract; '
@@ -97,15 +98,15 @@ CHECKS = {
              "hopeful (loop invariant + variant), exactly its value is credited and the value it carries moves with it (ghost pile "
              "G). Inside the verified count() bodies of wigm, wigm-prf, scotland, mpls: at every store to a ballot's weight the "
              "new value is in [0, old], new x tally <= old x surplus (rounded down, never up) and short of it by less than one unit per "
-             "truncation (exactly equal under exact arithmetic). Main-loop invariants of wigm, wigm-prf, scotland: every continuing "
+             "truncation (exactly equal under exact arithmetic). Main-loop invariants of wigm, wigm-prf(-batch), cfer(-batch), scotland: every continuing "
              "candidate's tally equals the value of the ballots standing with that candidate (W6, ghost piles), a candidate whose "
              "surplus was transferred holds exactly the quota, an excluded candidate holds nothing; surplus and exclusion sweeps leave "
              "every other candidate's tally-minus-pile unchanged and end with no ballot standing with the swept candidate.",
         design_ref='DESIGN 6/C06, 11.L',
         note=COMMON_NOTE + "W6 (tally == value of the ballots standing with the candidate) rests on the ledger model assumptions of DESIGN "
-             "11.L; for mpls, cfer and wigm-prf-batch it is checked at every recorded action by the bounded monitor only (labelled).",
+             "11.L; for mpls it is checked at every recorded action by the bounded monitor only (labelled).",
         technique='contract-based deductive verification of transfer()/Ballot methods and of the count() bodies (ghost piles per '
-                  'candidate, sweep invariants); bounded tally monitor as stand-in for mpls / cfer / batch variants'),
+                  'candidate, sweep invariants); bounded tally monitor as stand-in for mpls'),
     'C07': dict(
         category='proof',
         text="breakTie of wigm, wigm-prf, meek, mpls, qpq: result is a tied candidate, a single candidate is returned silently, "
